@@ -187,8 +187,9 @@ def classify(verdict, impl, query=""):
     if "aborts" in verdict and "CommImpl::start" in verdict:
         return KEY_ASSERT
     if "[zombie:" in verdict:
+        # (fixed defect; only the pre-fix model variant `unregisterMarksDying := true` produces this note)
         # an actor of the failed host was marked dying by unregister_first_simcall during the kill of a co-hosted peer;
-        # HostImpl::turn_off then skipped it: it never terminates (the model predicts exactly that)
+        # HostImpl::turn_off then skipped it: it never terminated
         return KEY_ZOMBIE
     if "CRASH 11" in impl:
         # SIGSEGV while an actor enters wait_any right after one of its simcalls ended with an exception
